@@ -651,8 +651,10 @@ fn drive_weighted(sys: &mut Sys, r: &mut StdRng, len: usize, t: &mut Trace) {
                 let x = match g.r.gen_range(0..8) {
                     0 => (th - rest).max(0),
                     1 => (th - rest - 1).max(0),
-                    2 => (maxw - rest).clamp(0, 1 << 29),
-                    3 => (maxw - rest + 1).clamp(0, 1 << 29),
+                    // (only in the overflow regime: at unit scale the driver keeps every sum far below 2^31,
+                    // which is what lets the trace specification use 32-bit integers)
+                    2 if big => (maxw - rest).clamp(0, 255),
+                    3 if big => (maxw - rest + 1).clamp(0, 255),
                     _ => *pick(g.r, &wvals),
                 };
                 o["amt"] = json!(if big { x.min(255) } else { x });
